@@ -1,4 +1,7 @@
 fn main() -> Result<(), Box<dyn std::error::Error>> {
+    // Verification hooks are guarded by `--cfg nexosim_verif` (see `src/verif.rs`).
+    println!("cargo::rustc-check-cfg=cfg(nexosim_verif)");
+
     #[cfg(nexosim_grpc_codegen)]
     tonic_build::configure()
         .build_client(false)
